@@ -82,6 +82,7 @@ class Stage:
     # stages that are functions of their arguments only (no per-call state is meant to live on the object): two
     # overlapping calls on ONE object - a user thread pool, the threaded scheduler - must not disturb each other
     reentrant = False
+    scripted_rng = False  # the adapter patches numpy.random for the call (nested overlap only: the patch is a stack)
     shift = 1  # how far the overlapping call's batch is shifted (the optical adapter pairs events on one geometry: 2)
     # single-precision inputs are compared at single-precision accuracy relative to the VALUE; stages whose outputs are
     # angles that pass through zero (geometry) amplify input rounding without bound in that measure: not compared
@@ -245,6 +246,7 @@ class TauPexit(TauEnergy):
 
 class TausCall(TauEnergy):
     name = "taus.__call__"
+    scripted_rng = True
 
     def call_bad(self, obj, arrays, c):
         beta, log_e = arrays[0], arrays[1]
@@ -288,6 +290,7 @@ class AltDec(Stage):
 
 class Spectrum(Stage):
     name = "spectra"
+    scripted_rng = True
     layouts = ()  # takes a count, no arrays
 
     def other_case(self, case):
@@ -370,6 +373,7 @@ class Optical(Stage):
 class Radio(Stage):
     name = "radio"
     max_n = 2000
+    scripted_rng = True
     layouts = ("bigendian",)  # rejects N-D inputs on the pinned tree: no claim
 
     def other_case(self, case):
@@ -642,33 +646,64 @@ SWEEP_CASE = {
 
 
 def _sweep_cases(tier):
+    seed = int(__import__("os").environ.get("VERIF_SEED", "1") or "1")
     for name, stage in STAGES.items():
         if name == "geometry.target":
             continue  # (needs a generated target configuration; its per-call state lives on the object by design)
-        for mode in (["one", "two"] if stage.reentrant else ["two"]):
-            top = 640
-            for k0 in range(0, top, 80):
-                # (quick tier: every second point for the expensive optical stage, the parity follows VERIF_SEED)
-                stride = 2 if (tier == "quick" and name == "eas.__call__") else 1
-                yield {"stage": name, "mode": mode, "k0": k0, "k1": k0 + 80, "stride": stride, "phase": int(__import__("os").environ.get("VERIF_SEED", "1") or "1") % stride}
+        modes = (["one"] if stage.reentrant else []) + ["two", "otherconf"]
+        for mode in modes:
+            for schedule in ("nested", "two_switch"):
+                if schedule == "two_switch" and stage.scripted_rng:
+                    continue
+                for k0 in range(0, 640, 80):
+                    # (quick tier: every second point for the expensive optical stage, the parity follows VERIF_SEED)
+                    stride = (2 if mode == "one" else 4) if (tier == "quick" and name == "eas.__call__") else 1
+                    if schedule == "two_switch" and name == "eas.__call__" and tier == "quick":
+                        stride = 16
+                    yield {"stage": name, "mode": mode, "schedule": schedule, "k0": k0, "k1": k0 + 80, "stride": stride, "phase": seed % stride}
 
 
 def body_sweep(case):
-    """Two overlapping calls of a stage (one object where the stage is a function of its arguments, two objects of one
-    configuration otherwise) for EVERY pre-emption point of the chunk: finds windows one source line wide."""
-    from ..interleave import sweep_overlapping
+    """Two overlapping calls of a stage - on one object where the stage is a function of its arguments, on two objects of
+    one configuration, on two objects of DIFFERENT configurations - for EVERY pre-emption point of the chunk, under the
+    nested schedule (B entirely inside A) and under the non-nested one (A suspended, B started and suspended, A
+    finishes, B finishes: several suspension points of B for every one of A). Finds windows one source line wide and
+    save/restore patterns that only survive nesting."""
+    from ..interleave import check_two_switches, run_two_switches, sweep_overlapping
 
     stage = STAGES[case["stage"]]
     base_case = dict(SWEEP_CASE)
     n = 1 if stage.name == "eas.__call__" else 3
     more = stage.inputs(base_case, n + stage.shift)
+    mode = case["mode"]
     with cut(f"{stage.name}: construct"):
         a = stage.make(base_case)
-        b = a if case["mode"] == "one" else stage.make(base_case)
-    mine, theirs = tuple(np.array(x[:n]) for x in more), tuple(np.array(x[stage.shift :]) for x in more)  # other events
+        if mode == "one":
+            b, b_case = a, base_case
+        elif mode == "two":
+            b, b_case = stage.make(base_case), base_case
+        else:
+            b_case = stage.other_case(base_case)
+            if b_case == base_case:
+                return {stage.name, mode, "no_other_configuration"}
+            b = stage.make(b_case)
+    mine = tuple(np.array(x[:n]) for x in more)
+    theirs = tuple(np.array(x[stage.shift :]) for x in (more if mode != "otherconf" else stage.inputs(b_case, n + stage.shift)))  # other events
     c = base_case["c"]
-    hits = sweep_overlapping(lambda: stage.call(a, mine, c), lambda: stage.call(b, theirs, c), case["k0"] + case.get("phase", 0), case["k1"], f"{stage.name} ({n} events, {'one object' if case['mode'] == 'one' else 'two objects of one configuration'})", stride=case.get("stride", 1))
-    return {stage.name, case["mode"]} | ({"preempted"} if hits else set())
+    where = {"one": "one object", "two": "two objects of one configuration", "otherconf": "two objects of different configurations"}[mode]
+    fa, fb = (lambda: stage.call(a, mine, c)), (lambda: stage.call(b, theirs, c))
+    k_first = case["k0"] + case.get("phase", 0)
+    if case.get("schedule", "nested") == "nested":
+        hits = sweep_overlapping(fa, fb, k_first, case["k1"], f"{stage.name} ({n} events, {where})", stride=case.get("stride", 1))
+    else:
+        probe = run_two_switches(fa, fb, k_first, 2)
+        tb = max(1, getattr(probe, "lines_b", 1))
+        if probe.lines <= k_first:
+            return {stage.name, mode, "two_switch"}
+        k2s = list(range(0, tb)) if tb <= 48 else sorted(set([2, 5, tb // 4, tb // 2, (3 * tb) // 4, tb - 5, tb - 2]))
+        pairs = [(k1, k2) for k1 in range(k_first, min(case["k1"], probe.lines), case.get("stride", 1)) for k2 in k2s if k2 >= 0]
+        hits = check_two_switches(fa, fb, pairs, f"{stage.name} ({n} events, {where})")
+    return {stage.name, mode, case.get("schedule", "nested")} | ({"preempted"} if hits else set())
 
 
 # ---- options that must not influence results: plotting and storing -------------------------------------
@@ -815,7 +850,7 @@ SUBCHECKS = [
         body_sweep,
         lambda labels: "preempted" in labels,
         {"quick": 1},
-        doc="two overlapping calls of every stage (one object for the re-entrant stages, two objects of one configuration for all) at EVERY pre-emption point of one representative call (0..639 package lines), enumerated in chunks dealt to the worker processes",
+        doc="two overlapping calls of every stage (one object for the re-entrant stages; two objects of one configuration; two objects of different configurations) at EVERY pre-emption point of one representative call (0..639 package lines) under the nested schedule, and under the non-nested two-switch schedule with up to 48 suspension points of the second call per point of the first; enumerated in chunks dealt to the worker processes",
         exhaustive=_sweep_cases,
     ),
     SubCheck(
